@@ -7,7 +7,7 @@ from props import leaf, proto
 def run(prop, tier, seed):
     rep = vlib.Report(prop, tier, seed)
     rng = random.Random(seed * 7919 + int(prop[1:]))
-    if prop == "C08":
+    if prop in ("C08", "C01"):
         from props import framing
         framing.check_into(rep, prop, tier, rng)
     else:
@@ -23,7 +23,7 @@ def replay(prop, path):
     r = json.load(open(path))
     if r.get("kind") == "proto":
         return proto.replay(prop, path)
-    if prop == "C08":
+    if prop in ("C08", "C01"):
         from props import framing
         return framing.replay(prop, path)
     return leaf.replay(prop, path)
